@@ -103,6 +103,17 @@ func parsePipeExpr(expr string) pipeExpr {
 				}},
 			}
 		}
+		// Neither of the above and not a variable path either (!x, -n, (a), x in xs):
+		// an expression for the evaluator
+		if !helpers.IsVariablePath(trimmed) {
+			return pipeExpr{
+				initial: "",
+				segments: []pipeSegment{{
+					typ:  segmentExpr,
+					expr: trimmed,
+				}},
+			}
+		}
 		// Just a simple variable reference
 		return pipeExpr{initial: trimmed}
 	}
